@@ -77,9 +77,9 @@ fn run_worker_with(exe: &std::path::Path, envs: &[(String, String)], mode: &str,
 pub fn run(prop: &'static str, tier: &str, seed: u64) -> i32 {
     let t = tier == "thorough";
     let (mode, total, per_worker, par) = match prop {
-        "C02" => ("c02", if t { 480 } else { 64 }, 8u64, 6usize),
-        "C03" => ("c03", if t { 1600 } else { 160 }, 20, 6),
-        _ => ("c11", if t { 2400 } else { 240 }, 30, 8),
+        "C02" => ("c02", if t { 1440 } else { 64 }, 8u64, 6usize),
+        "C03" => ("c03", if t { 6400 } else { 160 }, 20, 6),
+        _ => ("c11", if t { 9600 } else { 240 }, 30, 8),
     };
     let mut rep = Report::new(prop, tier, seed, "exploration", rule(prop));
     rep.assumptions = vec![
@@ -94,19 +94,19 @@ pub fn run(prop: &'static str, tier: &str, seed: u64) -> i32 {
     let mut results = results;
     if prop == "C03" {
         // a follower that stalls past the broadcast and delivery buffers: while its stream stays open it must not skip frames
-        let n_slow = if t { 48u64 } else { 8 };
+        let n_slow = if t { 160u64 } else { 8 };
         let slow: Vec<Vec<Value>> = run_cases(((n_slow + 3) / 4) as usize, 4, move |b| run_worker("c11slow", seed ^ 0x510, b as u64 * 4, 4));
         results.extend(slow);
     }
     if prop == "C03" {
         // the same property through the HTTP front end: a follower whose replay is held up while others append
-        let n_http = if t { 36 } else { 6 };
+        let n_http = if t { 120 } else { 6 };
         let http: Vec<Value> = run_cases(n_http, 6, move |i| crate::e2h::http_follow_round(crate::rng::mix(seed, 88_000 + i as u64)));
         results.push(http);
     }
     if prop == "C02" {
         // the same property through the HTTP front end (parallel connections, NDJSON and SSE pollers)
-        let n_http = if t { 40 } else { 6 };
+        let n_http = if t { 120 } else { 6 };
         let http: Vec<Value> = run_cases(n_http, 4, move |i| crate::e2h::http_round(crate::rng::mix(seed, 77_000 + i as u64)));
         results.push(http);
     }
